@@ -268,11 +268,18 @@ class Ctx:
 
 
 def load_findings():
+    out = []
     p = os.path.join(VERIF, 'known_findings.json')
-    if not os.path.exists(p):
-        return []
-    with open(p) as f:
-        return json.load(f).get('findings', [])
+    if os.path.exists(p):
+        with open(p) as f:
+            out += json.load(f).get('findings', [])
+    d = os.path.join(VERIF, 'known_findings.d')
+    if os.path.isdir(d):
+        for fn in sorted(os.listdir(d)):
+            if fn.endswith('.json'):
+                with open(os.path.join(d, fn)) as f:
+                    out += json.load(f).get('findings', [])
+    return out
 
 
 def write_replay(prop_id, payload):
@@ -328,9 +335,9 @@ def main(argv=None):
         lean = Lean(log)
         # 1. translator
         gen_info = None
-        if getattr(mod, 'USES_TRANSLATOR', False):
-            import translate
-            gen_info = translate.run()
+        if hasattr(mod, 'translate'):
+            # source -> lean/Model/Generated/*.lean, regenerated on every run
+            gen_info = mod.translate(stage.REPO, os.path.join(LEAN, 'Model', 'Generated'))
             log('translator: %s' % gen_info.get('summary', 'ok'))
         # 2. lean build
         lean.build_driver()
